@@ -2,7 +2,12 @@
 
 use enum_map::EnumMap;
 use serde::Deserialize;
+#[cfg(not(feature = "verif_hooks"))]
 use std::{collections::HashMap, fmt::Debug, sync::Arc};
+#[cfg(feature = "verif_hooks")]
+use std::{fmt::Debug, sync::Arc};
+#[cfg(feature = "verif_hooks")]
+use crate::verif_seam::{HashMap, SeamCtor};
 
 use super::{FractionsConfig, PhysicalQuantity, System};
 
